@@ -1,5 +1,5 @@
 SPECIFICATION Spec
-CONSTANTS Pool = {1, 2, 3, 4, 5, 6}
+CONSTANTS Pool = {1, 2, 3, 4, 5, 6, 7, 8}
  MaxLen = 4
 INVARIANT Deterministic
 INVARIANT MemoSound
